@@ -231,4 +231,19 @@ func genC15(tier string, r *rng) {
 	for _, o := range []asn1.ObjectIdentifier{{2, 5, 4, 94}, {2, 5, 4, 95}, {2, 5, 4, 96}, {2, 5, 4, 97}} {
 		emitDN([][]atv{{{o, "v", 0}}})
 	}
+	// characters that mean something to a FORMATTER rather than to RFC 4514 (printf verbs, format and template markers):
+	// they must come through as they stand, in every position, alone and next to the RFC 4514 specials
+	for _, v := range []string{"%", "100% Organic", "50%,CN=off", "%s", "%d", "%v", "%!", "%%", "a%", "%,", "%+", "%\\", "%\"", "%x41", "%20", "{0}", "{{.}}", "${x}", "$1", "\\1", "%[1]s", "% d", "%*d"} {
+		emitDN([][]atv{{{cn, v, asn1.TagUTF8String}}})
+		emitDN([][]atv{{{oids[2], "x", 0}}, {{cn, v, asn1.TagUTF8String}, {oids[3], v + "y", asn1.TagUTF8String}}, {{oids[1], "ZZ", 0}}})
+	}
+	// attribute types that other tables of the program know under a name (named curves, field types, key and signature
+	// algorithms, extensions, extended key usages): as an attribute type each is just an OID
+	for _, o := range []asn1.ObjectIdentifier{{1, 2, 840, 10045, 3, 1, 7}, {1, 3, 132, 0, 34}, {1, 3, 132, 0, 35}, {1, 3, 132, 0, 33}, {1, 3, 132, 0, 10}, {1, 2, 840, 10045, 3, 1, 1},
+		{1, 3, 36, 3, 3, 2, 8, 1, 1, 7}, {1, 3, 101, 110}, {1, 3, 101, 111}, {1, 3, 101, 112}, {1, 3, 101, 113}, {1, 2, 840, 10045, 1, 1}, {1, 2, 840, 10045, 1, 2}, {1, 2, 840, 10045, 2, 1},
+		{1, 2, 840, 113549, 1, 1, 1}, {1, 2, 840, 113549, 1, 1, 11}, {1, 2, 840, 113549, 1, 1, 10}, {1, 2, 840, 10040, 4, 1}, {1, 2, 840, 10045, 4, 3, 2}, {2, 16, 840, 1, 101, 3, 4, 2, 1},
+		{2, 5, 29, 15}, {2, 5, 29, 17}, {2, 5, 29, 19}, {2, 5, 29, 37}, {1, 3, 6, 1, 5, 5, 7, 3, 1}, {1, 3, 6, 1, 5, 5, 7, 3, 2}, {1, 3, 6, 1, 5, 5, 7, 1, 1}, {1, 2, 840, 113549, 1, 9, 14}} {
+		emitDN([][]atv{{{o, "x", 0}}})
+		emitDN([][]atv{{{cn, "a", 0}}, {{o, "b, c", 0}, {cn, "d", 0}}})
+	}
 }
